@@ -14,6 +14,57 @@ pub fn bin_path() -> PathBuf {
     Path::new(env!("CARGO_MANIFEST_DIR")).join("target-bin/release/oxipng")
 }
 
+/// the executable may be used by an oracle only when the check that started this process built it from /repo's
+/// current tree (otherwise a stale one from an earlier run could be lying around)
+pub fn binary_available() -> bool {
+    std::env::var("OXIVERIF_BINARY_BUILT").map_or(false, |v| v == "1") && bin_path().exists()
+}
+
+/// the command line that asks for exactly these option values (none: not expressible - an empty filter or keep list)
+pub fn opts_to_flags(o: &HOpts) -> Option<Vec<String>> {
+    if o.filter.is_empty() { return None; }
+    let mut a: Vec<String> = vec!["-o".into(), if o.fast_evaluation { "2".into() } else { "3".into() }];
+    a.push("-f".into());
+    a.push(o.filter.iter().map(|f| f.to_string()).collect::<Vec<_>>().join(","));
+    match o.deflate {
+        Ok(z) => { a.push("--zc".into()); a.push(z.to_string()); }
+        Err(i) => { a.push("-Z".into()); a.push("--zi".into()); a.push(i.max(1).to_string()); }
+    }
+    a.push("-i".into());
+    a.push(match o.interlace { None => "keep".into(), Some(m) => m.to_string() });
+    for (on, flag) in [(o.optimize_alpha, "-a"), (o.scale_16, "--scale16"), (o.force, "--force"), (o.fix_errors, "--fix"),
+        (!o.bit_depth_reduction, "--nb"), (!o.color_type_reduction, "--nc"), (!o.palette_reduction, "--np"),
+        (!o.grayscale_reduction, "--ng"), (!o.idat_recoding, "--nz")] {
+        if on { a.push(flag.into()); }
+    }
+    let names = |v: &Vec<[u8; 4]>| v.iter().map(|n| String::from_utf8_lossy(n).to_string()).collect::<Vec<_>>().join(",");
+    match &o.strip {
+        HStrip::None => {}
+        HStrip::Safe => a.push("-s".into()),
+        HStrip::All => { a.push("--strip".into()); a.push("all".into()); }
+        HStrip::Strip(v) => { if v.is_empty() { return None; } a.push("--strip".into()); a.push(names(v)); }
+        HStrip::Keep(v) => { if v.is_empty() { return None; } a.push("--keep".into()); a.push(names(v)); }
+    }
+    Some(a)
+}
+
+/// The same case through the executable (`--stdout`): `None` when these options cannot be asked for on the command line
+/// or the executable reads them differently (that is C09's subject, checked there) - otherwise what it delivered.
+pub fn run_case_via_binary(dir: &Path, input: &[u8], o: &HOpts) -> Option<Outcome> {
+    let mut args = opts_to_flags(o)?;
+    args.extend(["-q".into(), "--stdout".into(), "in.png".into()]);
+    let _ = std::fs::create_dir_all(dir);
+    std::fs::write(dir.join("in.png"), input).ok()?;
+    let r = run_bin(dir, &args);
+    let (_, parsed) = canon_dump(&r.dump)?;
+    if parsed.show() != o.show() { return None; }
+    Some(match r.status {
+        Some(0) => Outcome::Ok(r.stdout),
+        Some(_) => Outcome::Err("the executable reports failure".into()),
+        None => Outcome::Panic,
+    })
+}
+
 pub fn work_dir(tag: &str) -> PathBuf {
     let d = Path::new(env!("CARGO_MANIFEST_DIR")).join("../.work").join(format!("{}-{}", tag, std::process::id()));
     let _ = std::fs::remove_dir_all(&d);
